@@ -20,7 +20,7 @@ CLAIMS = {
         design="7/C11",
     ),
     "C13": dict(
-        text="Machine-checked Coq proofs for Python 2.0-2.7 and 3.0-3.10 targets, plus execution. Header: for the magic of every final release the writer reproduces, every 32-bit timestamp/size and every payload, what write_bytecode_file emits is, per that version's format (C06 spec), a timestamp header with exactly those fields, and load_module's parser (C06 model) reads them back and finds the payload where it was put. Payload: for the magic of EVERY 3.0-3.10 version (dump_code3) and EVERY 2.0-2.7 version (dump_code2: Python 2 str as 's', unicode as 'u', int as 'i' or 64-bit 'I', long as 'l'; integer fields 32 bits wide from 2.3 and 16 bits before) in xdis's table and EVERY well-formed code-object tree (any nesting of code objects in constants; posonlyargcount written exactly when that version's reader reads it) CPython's reader of that version (strict configuration of the shared reader model, validated against the interpreters in C10) loads the written bytes to the same tree, kinds included, and stops at their end, and so does xdis's own unmarshaller (re-read). The writer model is compared inside Coq, byte for byte, with what write_bytecode_file wrote for code compiled by the real 2.7 and 3.6-3.10 (incl. a non-ASCII file name, non-UTF-8 str, 64-bit ints, longs, unicode) and for corpus files of 2.1-2.7, 3.0-3.10 and PyPy; the real 2.7 and 3.6-3.10 interpreters compare their own marshal.loads of original and written file field by field through every nested code object (incl. filename and line table; constants by type and value); corpus files of versions the writer has no layout for (before 2.0, 3.11+) must be refused.",
+        text="Machine-checked Coq proofs for Python 2.1-2.7 and 3.0-3.10 targets, plus execution. Header: for the magic of every final release the writer reproduces, every 32-bit timestamp/size and every payload, what write_bytecode_file emits is, per that version's format (C06 spec), a timestamp header with exactly those fields, and load_module's parser (C06 model) reads them back and finds the payload where it was put. Payload: for the magic of EVERY 3.0-3.10 version (dump_code3) and EVERY 2.1-2.7 version (dump_code2: Python 2 str as 's', unicode as 'u', int as 'i' or 64-bit 'I', long as 'l'; integer fields 32 bits wide from 2.3 and 16 bits before) in xdis's table and EVERY well-formed code-object tree (any nesting of code objects in constants; posonlyargcount written exactly when that version's reader reads it) CPython's reader of that version (strict configuration of the shared reader model, validated against the interpreters in C10) loads the written bytes to the same tree, kinds included, and stops at their end, and so does xdis's own unmarshaller (re-read). The writer model is compared inside Coq, byte for byte, with what write_bytecode_file wrote for code compiled by the real 2.7 and 3.6-3.10 (incl. a non-ASCII file name, non-UTF-8 str, 64-bit ints, longs, unicode) and for corpus files of 2.1-2.7, 3.0-3.10 and PyPy; the real 2.7 and 3.6-3.10 interpreters compare their own marshal.loads of original and written file field by field through every nested code object (incl. filename and line table; constants by type and value); corpus files of versions the writer has no layout for (before 2.0, 3.11+) must be refused.",
         note="Trusted: Coq kernel; hand models coq/Model/WriteHeader.v and coq/Model/Marsh.v (dumps incl. dump_code3, dumps2 incl. dump_code2) + correspondence; the shared reader model; the real target interpreters as judges of code-object equality ('behaves identically' is taken from that equality). Floats are written as text: the theorem returns the decimal string (repr is the host's); payloads of pre-2.5 files holding text floats, and sets of two or more members (host iteration order), are compared by value through the reader model, not byte for byte; PyPy 3.2 payloads (names stored as 's') by xdis's re-read only. No axioms.",
         technique="Coq round-trip proofs (header; reader of writer = identity by induction over code-object trees, generic in the reader configuration, for the Python 3 and the Python 2 writer) + vm_compute obligations over the magic table + in-Coq correspondence + differential execution on the target interpreters",
         design="7/C13",
